@@ -14,6 +14,7 @@ CONSTANTS
   Tag = "C03"
   SoftTargets <- C03Soft
   HardTargets <- AllPaths
+  LinkCounts = {}
   SureCases = FALSE
   OnlyLastMayFail = TRUE
 SPECIFICATION LSpec
